@@ -10,6 +10,26 @@ TRUST = ("Trusted base: the Go type checker and go/ssa (x/tools v0.29.0) as a fa
 
 # id -> (technique, level text, level_note, design_ref)
 CLAIMED = {
+    "C10": (
+        "must-pass-through ordering on the CFG + path-sensitive error-test tracking + source-like argument expressions + who-may-call inventory of file-system calls, per GOOS build configuration",
+        "Decides the publication protocol for all paths: separator-free temp pattern with a non-Spec extension after the random part; temp file in the target's directory; rename within that directory to the target's base name; "
+        "rename only after an error-checked write and a close; only the temp file ever removed; the file-system-mutating call sites of pkg/cdi are exactly the confirmed ones (no in-place writer can appear unnoticed); "
+        "one atomic rename primitive per platform with the right descriptors/flags. These are the necessary structural conditions of 'no reader ever sees a partial Spec file'.",
+        TRUST + "Atomicity of rename(2) and CreateTemp's naming are assumed. Does not decide durability (no fsync), kernel/file-system semantics, or the inotify stream.",
+        "DESIGN.md §4 C10"),
+    "C15": (
+        "decoded condition sets and source-like expressions of the annotation helpers on go/ssa; rune-set evaluation; constant agreement tables; bounds engine",
+        "Decides for all paths that UpdateAnnotations writes the map exactly once, only after key and value were validated and the key found unused, with the tested key and the built value, and hands the untouched map back on every failure; "
+        "that ParseAnnotations skips foreign keys before collecting, fails with empty results on an unqualified device and keeps element order; that prefix, separator and length limit agree between writer, parser and the Kubernetes limit; "
+        "that the key's character classes are exactly alnum / alnum_-. / alnum.",
+        TRUST + "Does not decide the full Kubernetes key grammar over all strings nor ordering between different keys (map iteration).",
+        "DESIGN.md §4 C15"),
+    "C16": (
+        "source-like expression extraction and comparison of sibling path computations; decoded condition sets; call inventories",
+        "Decides that generated names are vendor-class[_id] with every '/' of the id replaced, that WriteSpec and RemoveSpec address the same path expression (Join(last directory, name) with the same default-extension rule, matched by newSpec's own normalisation), "
+        "that the last configured directory is used (error when none), that exactly 'does not exist' is tolerated on removal, that exactly one file is removed and publication goes through write(overwrite).",
+        TRUST + "filepath.Join confinement for single-component names assumed. Does not decide directory snapshots or precedence after refresh (C01).",
+        "DESIGN.md §4 C16"),
     "C08": (
         "may-panic / may-hang obligation inventory over the library's own code: bounds (compiler prove pass + residue rules), nil-dereference of decoder-produced pointers before validation (access paths + guard sets), type assertions, explicit panics/exits, nil map stores, nil calls through globals/maps, arithmetic, loop forms and recursion",
         "Decides for every function of the library packages that each construct able to panic or to loop forever on input-derived data is guarded: every index/slice in range, every decoded pointer nil-tested before use in pre-validation code, "
